@@ -669,7 +669,33 @@ type c19Known struct {
 	nonNil bool
 }
 
-func (x *c19) nextWaits(start, prev *ssa.BasicBlock, waits map[*ssa.Function]bool, failed ssa.Value) []c19NextWait {
+func (x *c19) nextWaits(start, prev *ssa.BasicBlock, waits map[*ssa.Function]bool, failed ssa.Value, late bool) []c19NextWait {
+	// ctxDone: number of edges on the current path that prove a context is done
+	// (the body of a select case receiving from a Done channel, the non-nil side of ctx.Err())
+	ctxDone := 0
+	doneEdge := func(from, to *ssa.BasicBlock) bool {
+		if si, ks := selectEdgeCases(from, to); si != nil {
+			for _, k := range ks {
+				if k >= 0 && k < len(si.Cases) && strings.HasPrefix(si.Cases[k].Chan, "done:") {
+					return true
+				}
+			}
+		}
+		if len(from.Instrs) > 0 && len(from.Succs) == 2 {
+			if ifi, ok := from.Instrs[len(from.Instrs)-1].(*ssa.If); ok {
+				if cmp, ok := decodeCond(ifi.Cond, from.Succs[0] == to); ok && cmp.Op == token.NEQ {
+					for _, o := range []ssa.Value{cmp.X, cmp.Y} {
+						if call, ok := o.(*ssa.Call); ok {
+							if obj := calleeObj(call); obj != nil && obj.Name() == "Err" && obj.Pkg() != nil && obj.Pkg().Path() == "context" {
+								return true
+							}
+						}
+					}
+				}
+			}
+		}
+		return false
+	}
 	// sameErr: o denotes the error value known non-nil on this search (the
 	// same SSA value, or another load of the same variable cell)
 	sameErr := func(o ssa.Value) bool {
@@ -825,6 +851,11 @@ func (x *c19) nextWaits(start, prev *ssa.BasicBlock, waits map[*ssa.Function]boo
 				// what this path returns (constants, the failed error) known to the caller
 				fn := b.Parent()
 				sites, ok := x.callers(fn)
+				if !ok && late && ctxDone == 0 && b != fn.Recover {
+					// the path leaves Run (or an entry point) before any wait and without
+					// evidence that the context is done: the rotation has ended
+					out = append(out, c19NextWait{at: in, note: "the rotation loop is left (return at " + x.pos(in) + ") although its context is not known to be done: the certificate is never renewed again"})
+				}
 				if !ok || up >= 3 {
 					return
 				}
@@ -923,7 +954,14 @@ func (x *c19) nextWaits(start, prev *ssa.BasicBlock, waits map[*ssa.Function]boo
 			}
 		}
 		for _, s := range b.Succs {
+			ev := doneEdge(b, s)
+			if ev {
+				ctxDone++
+			}
 			dfs(s, 0, b, nsel, known, ctx, up, depth+1)
+			if ev {
+				ctxDone--
+			}
 		}
 	}
 	dfs(start, 0, prev, map[*ssa.Phi]ssa.Value{}, map[ssa.Value]c19Known{}, 0, 0, 0)
@@ -1182,7 +1220,16 @@ func (x *c19) checkX5() {
 						succ = blk.Succs[1]
 					}
 					nEdges++
-					for _, nw := range x.nextWaits(succ, blk, waits, ev) {
+					// is this the error of a fetch made after readiness (a renewal)?
+					late := false
+					var fc ssa.Value = ev
+					if ex, ok := fc.(*ssa.Extract); ok {
+						fc = ex.Tuple
+					}
+					if call, ok := fc.(*ssa.Call); ok {
+						late = x.lateInstr[call] || x.lateFn[call.Parent()]
+					}
+					for _, nw := range x.nextWaits(succ, blk, waits, ev, late) {
 						nNext++
 						if retryPos == "-" {
 							retryPos = x.pos(nw.at)
